@@ -429,7 +429,7 @@ def _rand_model_once(rng, P):  # noqa: C901, PLR0912, PLR0915
             deps = _shuf(rng, deps, P)
             funcs.append(mkfunc("next_h", "stoch", deps, state="h"))
             shape = [T if d == "_period" else next(v for v in vars_ if v["name"] == d)["n"] for d in deps]
-            params.setdefault("shocks", {})["h"] = _rows(rng, shape, nh, bool(P.get("onehot")) and rng.random() < 0.8)
+            params.setdefault("shocks", {})["h"] = _rows(rng, shape, nh, bool(P.get("onehot")) and (P.get("onehot") == "always" or rng.random() < 0.8))
             feat["F16"] = len(deps) > 1
         else:
             src = rng.choice(dchoices)["name"] if dchoices else None
@@ -449,7 +449,7 @@ def _rand_model_once(rng, P):  # noqa: C901, PLR0912, PLR0915
         deps = _shuf(rng, deps, P)
         funcs.append(mkfunc("next_e", "stoch", deps, state="e"))
         shape = [next(v for v in vars_ if v["name"] == d)["n"] for d in deps]
-        params.setdefault("shocks", {})["e"] = _rows(rng, shape, ne, bool(P.get("onehot")) and rng.random() < 0.8)
+        params.setdefault("shocks", {})["e"] = _rows(rng, shape, ne, bool(P.get("onehot")) and (P.get("onehot") == "always" or rng.random() < 0.8))
         params["next_e"] = {}
         feat["F17"] = h_stoch
     if has_h and not h_stoch and not (has_w or has_z) and has("p_dead_label"):
